@@ -9,6 +9,7 @@ import (
 	"flag"
 	"fmt"
 	"os"
+	"os/exec"
 	"path/filepath"
 	"regexp"
 	"sort"
@@ -289,6 +290,33 @@ func cmdCheck(args []string) {
 		os.WriteFile(rp, j, 0o644)
 		outLines = append(outLines, fmt.Sprintf("VIOLATION property=%s replay=%s obligation=%s#exists no-failing-input-found", *prop, rp, k))
 	}
+	// bounded stand-ins (thorough tier only): executions of the real code over a stated
+	// finite domain. Labelled bounded; never counted among the discharged obligations.
+	var bounded []any
+	if *tier == "thorough" {
+		for _, bs := range ps.Bounded {
+			tb0 := time.Now()
+			cmd := exec.Command("sh", "-c", bs.Cmd)
+			cmd.Dir = *verif
+			outb, err := cmd.CombinedOutput()
+			cases := 0
+			for _, l := range strings.Split(string(outb), "\n") {
+				if i := strings.Index(l, "AUDIT cases="); i >= 0 {
+					n, _ := strconv.Atoi(strings.TrimSpace(l[i+len("AUDIT cases="):]))
+					cases += n
+				}
+			}
+			entry := map[string]any{"name": bs.Name, "bound": bs.Bound, "cmd": bs.Cmd, "cases": cases, "passed": err == nil, "wall_s": round3(time.Since(tb0).Seconds()), "label": "bounded (not proof)"}
+			bounded = append(bounded, entry)
+			if err != nil {
+				violations++
+				rp := filepath.Join(*verif, "evidence", "replays", *prop+"-bounded-"+sanitize(bs.Name)+".json")
+				j, _ := json.MarshalIndent(map[string]any{"property": *prop, "obligation": "bounded:" + bs.Name, "bound": bs.Bound, "replay_cmd": "cd " + *verif + " && " + bs.Cmd, "output": truncate(string(outb), 20000)}, "", " ")
+				os.WriteFile(rp, j, 0o644)
+				outLines = append(outLines, fmt.Sprintf("VIOLATION property=%s replay=%s obligation=bounded:%s", *prop, rp, bs.Name))
+			}
+		}
+	}
 	if obligations == 0 {
 		machineryError("no obligations generated")
 	}
@@ -318,6 +346,7 @@ func cmdCheck(args []string) {
 			"assumed_obligations": assumedHit, "known_findings_reported": knownHit,
 			"lemmas": sortedKeys(lemmas), "load_s": round3(tLoad), "unverified": ps.Unverified,
 			"obligation_selection": map[string]any{"classes": ps.Classes, "exclude_classes": ps.ExcludeClasses},
+			"bounded_standins":     bounded,
 		},
 		"assumptions": append([]string{}, ps.Assumptions...),
 		"wall_s":      round3(time.Since(t0).Seconds()),
